@@ -11,6 +11,7 @@ package service
 //   * shared receiver: all instances it represents end in the same status (direct oracle; ring overflow classified)
 
 import (
+	"runtime"
 	"context"
 	"errors"
 	"fmt"
@@ -173,11 +174,11 @@ func TestVerifC11Service(t *testing.T) {
 		if withShared || overflow {
 			withShared = true
 			mkc("e1", false)
-			shared = mkc("s0", true)
+			shared = mkc("s0", false)
 			if overflow {
 				shared.sc.duringStart = []componentstatus.Status{componentstatus.StatusPermanentError, componentstatus.StatusOK,
 					componentstatus.StatusRecoverableError, componentstatus.StatusOK, componentstatus.StatusRecoverableError, componentstatus.StatusOK}
-				shared.sc.running, shared.sc.duringStop, shared.sc.failStop = nil, nil, false
+				shared.sc.running, shared.sc.duringStop, shared.sc.failStop, shared.sc.failStart = nil, nil, false, false
 			}
 		}
 		sharedMap := sharedcomponent.NewMap[string, *c11sComp]()
@@ -236,6 +237,14 @@ func TestVerifC11Service(t *testing.T) {
 			pcs[pipeline.NewIDWithName(pipeline.SignalTraces, "t")] = &pipelines.PipelineConfig{Receivers: ids("s", []string{"s0"}), Exporters: ids("e", []string{"e1"})}
 		}
 		pcs[pipeline.NewIDWithName(pipeline.SignalLogs, "l")] = &pipelines.PipelineConfig{Receivers: logsRecv, Processors: ids("p", pn), Exporters: ids("e", []string{"e0"})}
+		twoPipes := rnd.IntN(2) == 0
+		if twoPipes {
+			// r0 and e0 are single instances listed by TWO logs pipelines: their instance ids carry both pipeline ids (WithPipelines)
+			pcs[pipeline.NewIDWithName(pipeline.SignalLogs, "l2")] = &pipelines.PipelineConfig{Receivers: ids("r", []string{"r0"}), Exporters: ids("e", []string{"e0"})}
+		}
+		// stormy: every started component keeps reporting from its own goroutine WHILE the service shuts down (its automatic
+		// Stopping/Stopped reports interleave with the component's): the per-instance events are then only monitored (docPathB)
+		stormy := rnd.IntN(6) == 0 && !overflow
 		conf := Config{
 			Extensions: extensions.Config{component.MustNewIDWithName("w", "w0")},
 			Pipelines:  pcs,
@@ -265,7 +274,43 @@ func TestVerifC11Service(t *testing.T) {
 			}
 			wg.Wait()
 		}
+		stop := make(chan struct{})
+		var storm sync.WaitGroup
+		if stormy && startErr == nil {
+			for _, cc := range comps {
+				if cc.host == nil {
+					continue
+				}
+				storm.Add(1)
+				seed := rnd.Uint64()
+				go func() {
+					defer storm.Done()
+					r := vRand(int(seed % 1000003))
+					for {
+						select {
+						case <-stop:
+							return
+						default:
+						}
+						c11sReport(cc.host, componentstatus.Status(2+r.IntN(3)))
+						runtime.Gosched()
+					}
+				}()
+			}
+		}
 		_ = srv.Shutdown(context.Background())
+		close(stop)
+		storm.Wait()
+		if stormy && startErr == nil {
+			for k, evs := range watcher.events {
+				out.Linef("tr events %s %s", k, c11sCSV(evs))
+			}
+			out.Linef("nt")
+			out.Linef("stat stormy 1")
+			out.Linef("end")
+			out.Flush()
+			continue
+		}
 		var keys []string
 		for k := range watcher.events {
 			keys = append(keys, k)
@@ -323,8 +368,9 @@ func TestVerifC11Service(t *testing.T) {
 				x, y = "traces", "logs"
 			}
 			pisx := len(stops) > 0 && stops[0] == x
-			out.Linef("op shared x=%s y=%s sx=%d sy=%d ds=%s allok=%d run=%s pisx=%d dstop=%s fstop=%d", keyOf[x], keyOf[y], vB(len(starts) >= 1), vB(len(starts) >= 2),
-				c11sCSV(shared.sc.duringStart), vB(startErr == nil), c11sCSV(shared.sc.running), vB(pisx), c11sCSV(shared.sc.duringStop), vB(shared.sc.failStop))
+			out.Linef("op shared x=%s y=%s sx=%d sy=%d ds=%s allok=%d run=%s pisx=%d dstop=%s fstop=%d fstart=%d", keyOf[x], keyOf[y], vB(len(starts) >= 1), vB(len(starts) >= 2),
+				c11sCSV(shared.sc.duringStart), vB(startErr == nil), c11sCSV(shared.sc.running), vB(pisx), c11sCSV(shared.sc.duringStop), vB(shared.sc.failStop), vB(shared.sc.failStart))
+			out.Linef("stat shared_start_fails %d", vB(shared.sc.failStart))
 			out.Linef("obs events %s %s", keyOf[x], c11sCSV(watcher.events[keyOf[x]]))
 			out.Linef("obs events %s %s", keyOf[y], c11sCSV(watcher.events[keyOf[y]]))
 			// direct oracle for "delivers its status to every instance it represents": once both instances are attached, every
@@ -348,6 +394,7 @@ func TestVerifC11Service(t *testing.T) {
 		out.Linef("nt")
 		out.Linef("stat shared %d", vB(withShared))
 		out.Linef("stat startfailed %d", vB(startErr != nil))
+		out.Linef("stat two_pipelines %d", vB(twoPipes))
 		out.Linef("end")
 		out.Flush()
 	}
